@@ -21,7 +21,7 @@ ImgComp(e) == [st |-> e.comp.st, inputs |-> [i \in 1..Len(e.comp.inputs) |-> e.c
 Decodable(e) == Len(e.unknown) = 0 /\ e.comp.st \in {"none", "partial", "complete", "flagged"}
                 /\ (e.comp.st = "flagged" => Len(e.comp.inputs) > 0 /\ \A i \in 1..Len(e.comp.inputs) : e.comp.inputs[i] >= 0)
 TInit == Init /\ l = 1 /\ bad = <<>> /\ nok = 0 /\ loaded = FALSE
-Rest == <<cur, mem, imm, immWal, tables, gen, fpc, cpc, csel, mode, rpc, rmem, model, nops, inflight, ncrash>>
+Rest == <<cur, mem, imm, immWal, tables, gen, fpc, cpc, csel, mode, rpc, rmem, model, nops, inflight, ncrash, wbuf, applied, base, rotn>>
 Clause(rm) == IF OpenFails THEN (IF Ev.ok THEN "open-succeeded-where-spec-says-it-fails" ELSE "ok")
               ELSE IF ~Ev.ok THEN "open-failed-where-spec-recovers"
               ELSE IF \E k \in Keys : rm[k] # Ev.m[k + 1] THEN "recovered-map-differs-from-spec-RecMap"
